@@ -352,7 +352,8 @@ def make_deque(sched):
             real_deque.append(self, x)
 
         def popleft(self):
-            sched.yield_point('popleft')
+            # popping from an empty queue changes nothing: not an effect
+            sched.yield_point('popleft' if len(self) else 'popleft-empty')
             return real_deque.popleft(self)
     return SchedDeque
 
@@ -405,7 +406,8 @@ def install_thread_hooks(world, sched, C):
     return SNT
 
 
-def enumerate_schedules(run_one, max_preemptions, limit=None, shard=(0, 1)):
+def enumerate_schedules(run_one, max_preemptions, limit=None, shard=(0, 1),
+                        should_stop=None):
     """Depth-first enumeration of schedules with at most max_preemptions
     preemptions.  run_one(schedule) -> decisions list
     [(n_options, choice, preemptive, kind, cur_runnable)...].
@@ -421,6 +423,9 @@ def enumerate_schedules(run_one, max_preemptions, limit=None, shard=(0, 1)):
         count += 1
         if limit is not None and count >= limit:
             complete = not stack
+            break
+        if should_stop is not None and should_stop():
+            complete = False
             break
         pre = sum(1 for d in decisions[:len(s)] if d[2])
         # children: deviate at a decision point beyond the prefix
